@@ -72,6 +72,29 @@ def run_game_models(pid, clusters, hashed, primes, U=2, workers=8):
     return states, trans, unsound
 
 
+def response_level_models(pid, tier):
+    """RespGame.tla (why the response is forced: every Schnorr equation on its own) and, for the pay proof, DigitBatch.tla
+    (every digit pairing equation on its own); each with its spec mutant BATCH = TRUE, which must violate soundness."""
+    states = trans = 0
+    for P in ([5] if tier == "quick" else [3, 5, 7]):
+        r = tlc("RespGame", f"MC_RespGame_P{P}.cfg", workers=2, name=f"{pid}_resp")
+        if not r["ok"]:
+            raise ToolError("RespGame: " + r["out"][-2000:])
+        states += r["distinct"]; trans += r["generated"]
+    r = tlc("RespGame", "MC_RespGame_batch.cfg", workers=2, name=f"{pid}_resp")
+    if r["ok"] or r["violated"] != "Sound":
+        raise ToolError("RespGame with BATCH = TRUE does not violate Sound: the model is vacuous")
+    if pid == "C02":
+        r = tlc("DigitBatch", "MC_DigitBatch.cfg", workers=2, name=f"{pid}_digit")
+        if not r["ok"]:
+            raise ToolError("DigitBatch: " + r["out"][-2000:])
+        states += r["distinct"]; trans += r["generated"]
+        r = tlc("DigitBatch", "MC_DigitBatch_batch.cfg", workers=2, name=f"{pid}_digit")
+        if r["ok"] or r["violated"] != "AcceptedOnlySigned":
+            raise ToolError("DigitBatch with BATCH = TRUE does not violate AcceptedOnlySigned: the model is vacuous")
+    return states, trans
+
+
 def protocol_consequence(pid, unsound, tier):
     """ZkAbacus.tla with a malicious customer whose proofs the merchant judges by the game verdict: ProofSound is what
     TLC decided for the observed transcript.  Sound: IssuedMatchesLedger / NoDoubleSpend must hold.  Unsound: TLC must
@@ -154,6 +177,8 @@ def check_C01(tier, seed):
     states, trans, unsound = run_game_models("C01", EST_CLUSTERS, hashed, primes)
     ps, pt, pres = protocol_consequence("C01", unsound, tier)
     states += ps; trans += pt
+    ps, pt = response_level_models("C01", tier)
+    states += ps; trans += pt
     strategies = gs.establish_strategies(hashed, tier)
     events = run_strategies("C01", strategies, seed, "establish")
     forged = [e for e in events if e["accepted"] and not e["truth"]]
@@ -209,6 +234,8 @@ def check_C02(tier, seed):
         s3, t3, u3 = run_game_models("C02c", PAY_BAL2, hashed, [5], workers=14)
         states += s3; trans += t3; unsound += u3
     ps, pt, pres = protocol_consequence("C02", unsound, tier)
+    states += ps; trans += pt
+    ps, pt = response_level_models("C02", tier)
     states += ps; trans += pt
     strategies = gs.pay_strategies(hashed, tier)
     events = run_strategies("C02", strategies, seed, "pay", jobs=8)
